@@ -1,6 +1,6 @@
 (* C19 -- Archives round-trip faithfully, are created atomically, and extract safely.
    Statements only; proofs are in Proofs/Archive.v. *)
-From NextestModel Require Import Base.Str Model.Archive Proofs.Archive.
+From NextestModel Require Import Base.Str Model.Archive Proofs.Archive Proofs.ArchiveCompose.
 Open Scope N_scope.
 
 (* The explicit-stack loop of append_path_recursive (fuel = size of the tree, never exhausted)
@@ -48,16 +48,40 @@ Theorem C19_metadata_first :
 Proof. exact archive_metadata_wins. Qed.
 Print Assumptions C19_metadata_first.
 
-(* Extracting an entry list without duplicate paths, all of the form target/<normal names>, into
-   an empty directory creates exactly those paths below dest and each holds its content. *)
+(* Extracting (repaired machine, with or without the F19 repair, with or without overwrite) an
+   entry list without duplicate paths, all of the form target/<normal names>, in which only
+   directory entries have entries below them, into ANY destination file system whose directory is
+   canonical and in which target/ does not exist: every entry holds its content at dest/<path>;
+   below dest/target there is nothing but the entries and the directories leading to them; no path
+   outside dest/target changes. *)
 Theorem C19_roundtrip_model :
-  forall dest tes es,
+  forall lo ow dest tes es d0,
     Forall2 encodes tes es -> NoDup (map fst es) -> Forall (fun e => archive_path (fst e)) es ->
-    exists d, extract false dest [] tes = XOk d
-              /\ map fst d = rev (map (fun e => dest ++ fst e) es)
-              /\ forall p c, In (p, c) es -> lookup d (dest ++ p) = Some (node_of_content c).
+    tree_like es -> dest_canonical d0 dest = true -> fresh_target d0 dest ->
+    exists d, extract_to lo false ow dest d0 tes = XOk d
+              /\ (forall p c, In (p, c) es -> lookup d (dest ++ p) = Some (node_of_content c))
+              /\ (forall rel n, lookup d (dest ++ target_name :: rel) = Some n ->
+                    (exists c, In (target_name :: rel, c) es /\ n = node_of_content c)
+                    \/ (n = NDir /\ exists p c, In (p, c) es
+                                                /\ proper_prefix (target_name :: rel) p))
+              /\ (forall q, path_prefix (dest ++ [target_name]) q = false ->
+                            lookup d q = lookup d0 q).
 Proof. exact roundtrip. Qed.
 Print Assumptions C19_roundtrip_model.
+
+(* Path names: strict UTF-8 decoding (std::str::from_utf8) inverts the encoder on every string of
+   Unicode scalar values, so the tar entry written for an archive entry encodes it whatever the
+   characters of its names (ASCII or not). *)
+Theorem C19_utf8_names :
+  forall s, forallb scalar s = true -> utf8_decode (utf8 s) = Some s.
+Proof. exact utf8_decode_utf8. Qed.
+Print Assumptions C19_utf8_names.
+
+Theorem C19_own_entries_encoded :
+  forall b es, archive b = Some es -> build_ok b = true ->
+    Forall (fun e => good_path (fst e) /\ encodes (tentry_of e) e) es.
+Proof. exact own_entries_encoded. Qed.
+Print Assumptions C19_own_entries_encoded.
 
 (* AtomicFile: for every sequence of step outcomes -- a crash is where the sequence ends, an error
    return is a StepErr with or without successful cleanup -- the destination holds its old content
@@ -108,23 +132,34 @@ Theorem C19_confined_any_path :
 Proof. exact dest_of_prefix. Qed.
 Print Assumptions C19_confined_any_path.
 
-(* The extraction machine (with realpath through the file system): from a destination without
-   links, ANY entry list only ever adds nodes below dest/target and creates no link, so the
-   lexical guarantee is the real one. *)
+(* The extraction machine as repaired for F23 (thru = false), started from an ARBITRARY
+   destination file system -- links anywhere below dest, also at dest/target itself -- whose
+   directory path dest is canonical (what `dir.canonicalize_utf8()` establishes), with or without
+   overwrite, with or without the F19 repair, for ANY entry list: whatever the outcome, the file
+   system afterwards is the old one plus nodes at paths below dest/target. *)
 Theorem C19_confined_extraction :
-  forall dest es d, nolinks d ->
-    exists w, result_fs (extract false dest d es) = w ++ d
-              /\ Forall (fun x => path_prefix (dest ++ [target_name]) (fst x) = true) w
-              /\ nolinks (w ++ d).
-Proof. exact extract_confined. Qed.
+  forall lo ow dest es d, dest_canonical d dest = true ->
+    exists w, result_fs (extract_to lo false ow dest d es) = w ++ d
+              /\ Forall (fun x => path_prefix (dest ++ [target_name]) (fst x) = true) w.
+Proof. exact extract_to_confined. Qed.
 Print Assumptions C19_confined_extraction.
 
-(* F19: the code before the repair (links_ok = true) is confined as well on every archive that
-   contains no symbolic or hard link entry; C19_F19_unfixed_witness below shows that it is not on
-   one that does. *)
+(* ... and these paths are where the operating system really puts the nodes: once the repair's
+   test has passed, the parent directory tar resolves through the file system (validate_inside_dst)
+   is the lexical one -- no write of the repaired machine goes through a link. *)
+Theorem C19_checked_lexical_is_physical :
+  forall d dest ns, dest_canonical d dest = true -> link_on_path d dest ns = false ->
+    realpath d (dest ++ removelast ns) = Some (dest ++ removelast ns).
+Proof. exact guard_makes_lexical_physical. Qed.
+Print Assumptions C19_checked_lexical_is_physical.
+
+(* F19 / F23: the code before the two repairs (links_ok = true: link entries accepted;
+   thru = true: links already in the destination followed) is confined as well outside the two
+   classes "the archive contains a link entry" / "the destination contains a link";
+   C19_F19_unfixed_witness and C19_F23_unfixed_witness below show that it is not inside them. *)
 Theorem C19_confined_outside_known :
-  forall dest es d, has_link es = false -> nolinks d ->
-    exists w, result_fs (extract true dest d es) = w ++ d
+  forall lo dest es d, (lo = true -> has_link es = false) -> fs_has_link d = false ->
+    exists w, result_fs (extract lo true dest d es) = w ++ d
               /\ Forall (fun x => path_prefix (dest ++ [target_name]) (fst x) = true) w
               /\ nolinks (w ++ d).
 Proof. exact extract_confined_outside_known. Qed.
@@ -133,20 +168,99 @@ Print Assumptions C19_confined_outside_known.
 (* An entry that fails validation stops the extraction before anything is written for it or for
    any later entry. *)
 Theorem C19_rejected_before_write :
-  forall links_ok dest es1 d e es2 d1,
-    extract links_ok dest d es1 = XOk d1 -> entry_ok links_ok e = false ->
-    extract links_ok dest d (es1 ++ e :: es2) = XRejected (entry_check links_ok e) d1.
+  forall links_ok thru dest es1 d e es2 d1,
+    extract links_ok thru dest d es1 = XOk d1 -> entry_ok links_ok e = false ->
+    extract links_ok thru dest d (es1 ++ e :: es2) = XRejected (entry_check links_ok e) d1.
 Proof. exact extract_stops_at_first_bad. Qed.
 Print Assumptions C19_rejected_before_write.
 
-(* PathMapper: prefix substitution; the (binary-id, test) selection over the remapped binary list
-   is the original one as soon as every binary's bytes sit at its remapped path (which the round
-   trip provides). *)
+(* Composition archive -> tar entries -> extract -> remap. b = the build as Archiver::archive reads
+   it, es = the archive it produces; the entries, written as tar entries with UTF-8 names, are
+   extracted into a destination whose target/ does not exist; orig = the build's target directory,
+   target_remap orig dest = the remapping extract_archive installs (orig -> dest/target). Then
+   (1) every path any operation of the archiver names -- see C19_archiver_takes for which these
+   are -- holds, at the REMAPPED path, the content of the first operation that named it;
+   (2) below dest/target there is nothing but archive entries and the directories leading to them;
+   (3) nothing outside dest/target changes.
+   Hypotheses: names are directory-entry names made of scalar values (build_ok), and only
+   directories have children (tree_like es; any listing of one file system). *)
+Theorem C19_archive_extract_remap :
+  forall b es lo ow dest orig d0,
+    archive b = Some es -> build_ok b = true -> tree_like es ->
+    dest_canonical d0 dest = true -> fresh_target d0 dest ->
+    exists d, extract_to lo false ow dest d0 (map tentry_of es) = XOk d
+      /\ (forall o p, In o (archive_ops b) -> op_path o = Some (target_name :: p) ->
+            exists c, wins (archive_ops b) (target_name :: p) c
+                      /\ lookup d (remap (target_remap orig dest) (orig ++ p))
+                         = Some (node_of_content c))
+      /\ (forall rel n, lookup d (dest ++ target_name :: rel) = Some n ->
+            (exists c, wins (archive_ops b) (target_name :: rel) c /\ n = node_of_content c)
+            \/ (n = NDir /\ exists p c, wins (archive_ops b) p c
+                                        /\ proper_prefix (target_name :: rel) p))
+      /\ (forall q, path_prefix (dest ++ [target_name]) q = false -> lookup d q = lookup d0 q).
+Proof. exact archive_extract_remap. Qed.
+Print Assumptions C19_archive_extract_remap.
+
+(* Which paths the archiver names: every test binary, non-test binary and std library; for every
+   build script out dir its files down to depth 1 and the sibling `output` file; for every linked
+   path that exists its files down to depth 1; for every configured extra path that passed the
+   pre-check and exists its files down to the configured depth (C19_depth_iff says which these
+   are) ... *)
+Theorem C19_archiver_takes :
+  forall b,
+    (forall x, In x (b_test_bins b) \/ In x (b_non_test_bins b) \/ In x (b_stdlibs b) ->
+       In (OFile (under_target (fst x)) (resolve_direct (snd x))) (archive_ops b))
+    /\ (forall (o : outdir) t q s, In o (b_out_dirs b) -> snd (fst o) = Some t ->
+          In (q, s) (appends (collect (Finite 1) (under_target (fst (fst o))) t)) ->
+          In (OFile q (resolve_src s)) (archive_ops b))
+    /\ (forall (o : outdir) f, In o (b_out_dirs b) -> snd o = Some f ->
+          In (OFile (under_target (fst f)) (resolve_direct (snd f))) (archive_ops b))
+    /\ (forall x t q s, In x (b_linked b) -> snd x = Some t -> exists_follow (Some t) = true ->
+          In (q, s) (appends (collect (Finite 1) (under_target (fst x)) t)) ->
+          In (OFile q (resolve_src s)) (archive_ops b))
+    /\ (forall i t q s, In i (b_includes b) -> include_check i = Some true -> inc_src i = Some t ->
+          exists_follow (Some t) = true ->
+          In (q, s) (appends (collect (inc_depth i) (under_target (inc_path i)) t)) ->
+          In (OFile q (resolve_src s)) (archive_ops b)).
+Proof. exact archiver_takes. Qed.
+Print Assumptions C19_archiver_takes.
+
+(* ... and nothing else (no deeper): every operation is one of these, one of the two in-memory
+   metadata entries, or a failure. *)
+Theorem C19_archiver_takes_nothing_else :
+  forall b o, In o (archive_ops b) -> op_origin b o.
+Proof. exact ops_origin. Qed.
+Print Assumptions C19_archiver_takes_nothing_else.
+
+(* Every path named is archived (when archive creation succeeds). *)
+Theorem C19_named_is_archived :
+  forall b es o p, archive b = Some es -> In o (archive_ops b) -> op_path o = Some p ->
+    exists c, In (p, c) es.
+Proof. exact archive_named. Qed.
+Print Assumptions C19_named_is_archived.
+
+(* PathMapper after extraction: the test binaries' paths, mapped the way map_binary maps them
+   (original target directory replaced by dest/target), point at the extracted copies, which hold
+   the bytes of the build's binaries; hence the (binary-id, test) selection computed from the
+   remapped list on the extracted tree is the one computed from the original build. (The tests of a
+   binary are an arbitrary function [lister] of the bytes found at its path.) Needs one content
+   per path (coherent) and test binaries that are regular files. map_cwd uses the workspace
+   remapping, which extraction does not set; it is covered by corr:path-mapper only. *)
 Theorem C19_remap :
-  forall lister (d d' : files) m bins,
-    (forall b, In b bins -> d' (remap m (snd b)) = d (snd b)) ->
-    selection lister d' (map (fun b => (fst b, remap m (snd b))) bins) = selection lister d bins.
-Proof. exact remap_selection. Qed.
+  forall b es lo ow dest orig d0 (ids : rpath -> str) (lister : option bytes -> list str),
+    archive b = Some es -> build_ok b = true -> tree_like es -> coherent (archive_ops b) ->
+    (forall x, In x (b_test_bins b) -> exists by_, resolve_direct (snd x) = Some (CFile by_)) ->
+    dest_canonical d0 dest = true -> fresh_target d0 dest ->
+    exists d, extract_to lo false ow dest d0 (map tentry_of es) = XOk d
+      /\ (forall x, In x (b_test_bins b) ->
+            files_of d (remap (target_remap orig dest) (orig ++ fst x))
+            = bytes_of (resolve_direct (snd x)))
+      /\ selection lister (files_of d)
+                   (map (fun x => (ids (fst x), remap (target_remap orig dest) (orig ++ fst x)))
+                        (b_test_bins b))
+         = flat_map (fun x => map (fun t => (ids (fst x), t))
+                                  (lister (bytes_of (resolve_direct (snd x))))) (b_test_bins b).
+Proof. exact remap_points_at_copies. Qed.
 Print Assumptions C19_remap.
 
 Theorem C19_remap_prefix :
@@ -216,15 +330,56 @@ Definition dest_ex : rpath := [[100]; [101]].     (* /d/e *)
 
 Example C19_roundtrip_example :
   exists d,
-    extract false dest_ex [] (map tentry_of [([target_name; nA], CFile [1]); (inc ++ [nC], CDir)])
+    extract_to false false false dest_ex []
+               (map tentry_of [([target_name; nA], CFile [1]); (inc ++ [nC], CDir)])
     = XOk d
     /\ lookup d (dest_ex ++ [target_name; nA]) = Some (NFile [1])
-    /\ lookup d (dest_ex ++ inc ++ [nC]) = Some NDir.
+    /\ lookup d (dest_ex ++ inc ++ [nC]) = Some NDir
+    /\ map fst d = [dest_ex ++ inc ++ [nC]; dest_ex ++ inc; dest_ex ++ [target_name; nA];
+                    dest_ex ++ [target_name]].
 Proof. eexists. repeat split; vm_compute; reflexivity. Qed.
 
-(* F19 (repaired): `target/a -> ..` followed by `target/a/evil`. Before the repair the second entry
-   lands in dest itself, outside dest/target; with the repair the link entry is rejected (code 4)
-   and nothing at all is written. *)
+(* a name outside ASCII: é = U+00E9 is written as C3 A9 and read back *)
+Example C19_utf8_example :
+  utf8_path [target_name; [233; 120]] = [116; 97; 114; 103; 101; 116; 47; 195; 169; 120]
+  /\ utf8_decode (utf8_path [target_name; [233; 120]]) = Some (render_rel [target_name; [233; 120]])
+  /\ name_ok [233; 120] = true /\ name_ok [55296] = false.
+Proof. repeat split; vm_compute; reflexivity. Qed.
+
+(* the composition on ex_build (overlapping includes, an impostor metadata file): hypotheses hold,
+   the extracted test binary is found through the remapping /o/target -> /d/e/target *)
+Definition orig_ex : rpath := [[111]; target_name].
+Example C19_compose_example :
+  exists es d,
+    archive ex_build = Some es /\ build_ok ex_build = true /\ tree_likeb es = true
+    /\ extract_to false false false dest_ex [] (map tentry_of es) = XOk d
+    /\ lookup d (remap (target_remap orig_ex dest_ex) (orig_ex ++ [nA])) = Some (NFile [1])
+    /\ lookup d (remap (target_remap orig_ex dest_ex) (orig_ex ++ [nX; nC])) = Some NDir
+    /\ length d = 8%nat.
+Proof. eexists. eexists. repeat split; vm_compute; reflexivity. Qed.
+
+(* the hypotheses of C19_remap are satisfiable: one content per path, binaries are files *)
+Definition ex_build2 : build :=
+  {| b_meta_binaries := [10]; b_meta_cargo := [11];
+     b_test_bins := [([nA], Some (File [1])); ([nB; nC], Some (Symlink (LFile [2])))];
+     b_non_test_bins := []; b_out_dirs := []; b_linked := [];
+     b_includes :=
+       [ {| inc_path := [nX]; inc_depth := Finite 2; inc_missing := OnWarn; inc_src := Some ex_tree |};
+         {| inc_path := [nA]; inc_depth := Finite 0; inc_missing := OnError;
+            inc_src := Some (File [1]) |} ];
+     b_stdlibs := [] |}.
+Example C19_remap_hypotheses :
+  coherentb (archive_ops ex_build2) = true /\ build_ok ex_build2 = true
+  /\ (exists es, archive ex_build2 = Some es /\ tree_likeb es = true)
+  /\ forallb (fun x => match resolve_direct (snd x) with Some (CFile _) => true | _ => false end)
+             (b_test_bins ex_build2) = true
+  /\ coherentb (archive_ops ex_build) = false.
+Proof. split; [|split; [|split; [eexists; split|split]]]; vm_compute; reflexivity. Qed.
+
+(* F19 (repaired): `target/a -> ..` followed by `target/a/evil`. Before the two repairs the second
+   entry lands in dest itself, outside dest/target; with the F19 repair the link entry is rejected
+   (code 4) and nothing at all is written; with the F23 repair alone the link is created but the
+   entry through it is refused. *)
 Definition str_of (l : list N) : str := l.
 Definition raw_target_a : bytes := utf8 (render_rel [target_name; nA]).
 Definition raw_target_a_evil : bytes := utf8 (render_rel [target_name; nA; [101; 118; 105; 108]]).
@@ -233,7 +388,7 @@ Definition f9_archive : list tentry :=
     {| te_raw := raw_target_a_evil; te_cksum_ok := true; te_kind := KFile; te_data := [1; 2] |} ].
 
 Example C19_F19_unfixed_witness :
-  exists d, extract true dest_ex [] f9_archive = XOk d
+  exists d, extract true true dest_ex [] f9_archive = XOk d
             /\ lookup d (dest_ex ++ [[101; 118; 105; 108]]) = Some (NFile [1; 2])
             /\ path_prefix (dest_ex ++ [target_name]) (dest_ex ++ [[101; 118; 105; 108]]) = false.
 Proof. eexists. repeat split; vm_compute; reflexivity. Qed.
@@ -242,8 +397,65 @@ Example C19_F19_known_class : has_link f9_archive = true.
 Proof. vm_compute. reflexivity. Qed.
 
 Example C19_F19_fixed :
-  extract false dest_ex [] f9_archive = XRejected 4 [].
-Proof. vm_compute. reflexivity. Qed.
+  extract false false dest_ex [] f9_archive = XRejected 4 []
+  /\ extract false true dest_ex [] f9_archive = XRejected 4 []
+  /\ exists d, extract true false dest_ex [] f9_archive = XIoError d
+               /\ map fst d = [dest_ex ++ [target_name; nA]; dest_ex ++ [target_name]].
+Proof. split; [|split; [|eexists; split]]; vm_compute; reflexivity. Qed.
+
+(* F23 (repaired): the destination already contains `dest/target/a -> ..` (possible with
+   --extract-overwrite) and the archive consists of the single ordinary entry `target/a/evil`.
+   Before the repair the file lands in dest itself; the repaired machine refuses the entry and
+   leaves the file system alone. Also: a link at dest/target itself, and a directory entry over a
+   link (tar would keep the link and change the permissions of what it points to). *)
+Definition evil_name : name := [101; 118; 105; 108].
+Definition f23_dest : fsys :=
+  [ (dest_ex ++ [target_name; nA], NLink [CParent]); (dest_ex ++ [target_name], NDir) ].
+Definition f23_archive : list tentry :=
+  [ {| te_raw := raw_target_a_evil; te_cksum_ok := true; te_kind := KFile; te_data := [1; 2] |} ].
+
+Example C19_F23_unfixed_witness :
+  exists d, extract_to false true true dest_ex f23_dest f23_archive = XOk d
+            /\ lookup d (dest_ex ++ [evil_name]) = Some (NFile [1; 2])
+            /\ path_prefix (dest_ex ++ [target_name]) (dest_ex ++ [evil_name]) = false
+            /\ dest_canonical f23_dest dest_ex = true.
+Proof. eexists. repeat split; vm_compute; reflexivity. Qed.
+
+Example C19_F23_known_class : fs_has_link f23_dest = true /\ has_link f23_archive = false.
+Proof. split; vm_compute; reflexivity. Qed.
+
+Example C19_F23_fixed :
+  extract_to false false true dest_ex f23_dest f23_archive = XIoError f23_dest
+  /\ extract_to false false false dest_ex f23_dest f23_archive = XRejected 6 f23_dest
+  /\ (let d := [(dest_ex ++ [target_name], NLink [CNormal nB]); (dest_ex ++ [nB], NDir)] in
+      extract_to false false true dest_ex d f23_archive = XIoError d
+      /\ exists d', extract_to false true true dest_ex d f23_archive = XOk d'
+                    /\ lookup d' (dest_ex ++ [nB; nA; evil_name]) = Some (NFile [1; 2]))
+  /\ (let d := [(dest_ex ++ [target_name; nA], NLink [CRoot; CNormal nX]);
+                (dest_ex ++ [target_name], NDir)] in
+      let dir_entry := {| te_raw := raw_target_a; te_cksum_ok := true; te_kind := KDir;
+                          te_data := [] |} in
+      extract_to false false true dest_ex d [dir_entry] = XIoError d
+      /\ extract_to false true true dest_ex d [dir_entry] = XOk d).
+Proof.
+  split; [|split; [|split; [split; [|eexists; split]|split]]]; vm_compute; reflexivity.
+Qed.
+
+(* the repaired machine on a destination that has links elsewhere: extraction proceeds next to
+   them, over existing files and directories, and C19_confined_extraction applies *)
+Example C19_confined_nonvacuous :
+  let d0 := [ (dest_ex ++ [target_name; nA], NLink [CParent]);
+              (dest_ex ++ [target_name; nB], NFile [9]);
+              (dest_ex ++ [target_name; nX], NDir);
+              (dest_ex ++ [target_name], NDir) ] in
+  dest_canonical d0 dest_ex = true
+  /\ exists d, extract_to false false true dest_ex d0
+                 (map tentry_of [([target_name; nB], CFile [1]); (inc ++ [nC; nA], CFile [2])])
+               = XOk d
+               /\ lookup d (dest_ex ++ [target_name; nB]) = Some (NFile [1])
+               /\ lookup d (dest_ex ++ inc ++ [nC; nA]) = Some (NFile [2])
+               /\ lookup d (dest_ex ++ [target_name; nA]) = Some (NLink [CParent]).
+Proof. split; [|eexists; repeat split]; vm_compute; reflexivity. Qed.
 
 (* path validation on strings *)
 Example C19_path_examples :
